@@ -1,6 +1,7 @@
 (* C09 — from SOURCE BYTES to the canonical text: the lexer model (LexerModel.tokenize over the pure stream) turns the
    source spelling [src t] of a literal tree into exactly the tokens [toks t], for trees built from decimal
-   integers, negated decimal integers, 0x / 0b integers, strings, arrays and tuples (any depth).  Together with
+   integers, negated decimal integers, 0x / 0b / 0o integers in every well-formed spelling (either letter case, leading
+   zeros, '_' separators: CRad), strings, arrays and tuples (any depth).  Together with
    LiteralProof.literal_tokens_canon:
 
      literal_source_canon : lexable t -> wfb t -> literal_of_source (src t) = LOk (OLit (canon t))
@@ -245,7 +246,8 @@ Proof.
     destruct Hc6 as [->|[->|[->|[->|[->| ->]]]]]; reflexivity.
 Qed.
 
-Lemma hex_tail_run : forall hs rest, forallb is_lhex hs = true -> sep_rest rest ->
+Lemma hex_tail_run : forall hs rest,
+  Forall (fun c => (c < 128)%N /\ (is_hex_digit c || (c =? 95)%N) = true) hs -> sep_rest rest ->
   forall fuel (l : plex) b, At l (hs ++ rest) -> length hs < fuel ->
   exists l', hex_tail pure_stream fuel (l, b) = Some (l', rev hs ++ b) /\ At l' rest.
 Proof.
@@ -253,7 +255,7 @@ Proof.
   destruct (sep_rest_cases rest Hsep) as [Ha Hst].
   assert (Hstop : (is_hex_digit (head_ch rest) || (head_ch rest =? 95)%N) = false)
     by (destruct Hst as [->|[->|[->| ->]]]; reflexivity).
-  destruct (take_while_run _ hs (lhex_run hs Hh) rest Ha Hstop fuel l b H Hf) as (l1 & Ht & Ha1).
+  destruct (take_while_run _ hs Hh rest Ha Hstop fuel l b H Hf) as (l1 & Ht & Ha1).
   pose proof (At_head l1 rest Ha1 Ha) as C1.
   exists l1. split; [|exact Ha1].
   assert (Q46 : (head_ch rest =? 46)%N = false) by (destruct Hst as [->|[->|[->| ->]]]; reflexivity).
@@ -263,15 +265,178 @@ Proof.
   cbn [LexerModel.bind]. rewrite C1, Qp. reflexivity.
 Qed.
 
-Lemma bits_run : forall bs, forallb is_bit bs = true ->
-  Forall (fun c => (c < 128)%N /\ is_bin_char c = true) bs.
+(* the characters of a well-formed prefixed spelling (LiteralSpec.rad_ok) are what the lexer's loops accept *)
+Definition rad_cond (r : radix) : N -> bool :=
+  match r with
+  | RHex => fun c => is_hex_digit c || (c =? 95)%N
+  | RBin => is_bin_char
+  | ROct => is_oct_char
+  end.
+
+Lemma rad_cond_sweep :
+  forallb (fun c => (if is_rdigit RHex c then rad_cond RHex c else true) &&
+                    (if is_rdigit RBin c then rad_cond RBin c else true) &&
+                    (if is_rdigit ROct c then rad_cond ROct c else true)) (map N.of_nat (seq 0 128)) = true.
+Proof. vm_compute. reflexivity. Qed.
+
+Lemma rad_run : forall r ds, rad_ok r ds = true -> Forall (fun c => (c < 128)%N /\ rad_cond r c = true) ds.
 Proof.
-  intros bs H. apply Forall_forall. intros c Hc.
-  pose proof (proj1 (forallb_forall _ _) H c Hc) as Hl. unfold is_bit in Hl.
-  assert (Hc2 : (c = 48 \/ c = 49)%N) by lia. destruct Hc2 as [-> | ->]; split; try reflexivity; lia.
+  intros r ds H. apply Forall_forall. intros c Hc.
+  pose proof (proj1 (Forall_forall _ _) (rad_ok_chars r ds H) c Hc) as [->|Hd].
+  - split; [lia|destruct r; reflexivity].
+  - destruct (is_rdigit_some r c Hd) as (d & Ed). pose proof (rdigit_lt r c d Ed) as Hlt. split; [exact Hlt|].
+    assert (Hin : In c (map N.of_nat (seq 0 128))).
+    { apply in_map_iff. exists (N.to_nat c). split; [lia|]. apply in_seq. lia. }
+    pose proof (proj1 (forallb_forall _ _) rad_cond_sweep c Hin) as Hs. cbv beta in Hs.
+    apply andb_prop in Hs. destruct Hs as [Hs H3]. apply andb_prop in Hs. destruct Hs as [H1 H2].
+    destruct r; [rewrite Hd in H1; exact H1|rewrite Hd in H2; exact H2|rewrite Hd in H3; exact H3].
 Qed.
 
-(* "0x" hex digits, followed by a separator, is one NUMBER token *)
+(* readNumberOrIdent on "0" followed by a base letter: the identifier tests fail and number_rest runs on ("0") *)
+Lemma number_rest_entry : forall X tail, (X = 120 \/ X = 88 \/ X = 98 \/ X = 66 \/ X = 111 \/ X = 79)%N ->
+  forall fuel (l : plex), At l (48%N :: X :: tail) -> 2 < fuel ->
+  exists l1, read_number_or_ident pure_stream fuel l = number_rest pure_stream fuel (l_pos l) 48%N (l1, [48%N]) /\
+             At l1 (X :: tail) /\ l_ch l = 48%N.
+Proof.
+  intros X tail HX fuel l H Hf.
+  assert (HX128 : (X < 128)%N) by lia.
+  destruct (At_ascii l _ _ H ltac:(lia)) as (E & C & Sr).
+  assert (Hnd : is_digit (head_ch (X :: tail)) = false)
+    by (cbn [head_ch]; destruct HX as [->|[->|[->|[->|[->| ->]]]]]; reflexivity).
+  destruct (take_while_run is_digit [48%N] ltac:(constructor; [split; [lia|reflexivity]|constructor])
+              (X :: tail) ltac:(cbn; lia) Hnd fuel l [] H ltac:(cbn; lia)) as (l1 & Ht & Ha1).
+  destruct (At_ascii l1 _ _ Ha1 HX128) as (E1 & C1 & Sr1).
+  exists l1. split; [|split; [exact Ha1|exact C]].
+  unfold read_number_or_ident. unfold sb in *. rewrite Ht. cbn [LexerModel.bind fst snd rev app].
+  rewrite C, C1.
+  assert (Q95 : (X =? 95)%N = false) by (destruct HX as [->|[->|[->|[->|[->| ->]]]]]; reflexivity).
+  rewrite Q95. cbn [andb]. cbv iota.
+  assert (Ql : is_letter X = true) by (destruct HX as [->|[->|[->|[->|[->| ->]]]]]; reflexivity).
+  assert (Qb : ((X =? 120) || (X =? 88) || (X =? 98) || (X =? 66) || (X =? 111) || (X =? 79))%N = true)
+    by (destruct HX as [->|[->|[->|[->|[->| ->]]]]]; reflexivity).
+  assert (Qe : ((X =? 101) || (X =? 69))%N = false) by (destruct HX as [->|[->|[->|[->|[->| ->]]]]]; reflexivity).
+  rewrite ?C1. rewrite Ql, Qb, Qe. change (bytes_eqb (sb_str [48%N]) [48%N]) with true. cbn [andb negb]. cbv iota. reflexivity.
+Qed.
+
+(* number_rest on ("0") when the current character is a base letter: no underscore group, fraction or exponent *)
+Lemma number_rest_skip : forall X, (X = 120 \/ X = 88 \/ X = 98 \/ X = 66 \/ X = 111 \/ X = 79)%N ->
+  forall f (l1 : plex), l_ch l1 = X ->
+  us_digit_groups pure_stream (S f) (l1, [48%N]) = Some (l1, [48%N]) /\
+  fraction_part pure_stream (S f) (l1, [48%N]) = Some (l1, [48%N]) /\
+  exponent_part pure_stream (S f) (l1, [48%N]) = Some (l1, [48%N]).
+Proof.
+  intros X HX f l1 C1. split; [|split].
+  - unfold us_digit_groups. apply loopo_once. rewrite C1. destruct HX as [->|[->|[->|[->|[->| ->]]]]]; reflexivity.
+  - unfold fraction_part. rewrite C1. destruct HX as [->|[->|[->|[->|[->| ->]]]]]; reflexivity.
+  - unfold exponent_part. rewrite C1. destruct HX as [->|[->|[->|[->|[->| ->]]]]]; reflexivity.
+Qed.
+
+Lemma sb_str_rev : forall (ds : list N) X, sb_str (rev ds ++ [X; 48%N]) = (48%N :: X :: ds).
+Proof.
+  intros ds X. unfold sb_str, frev. rewrite rev_append_rev, app_nil_r, rev_app_distr, rev_involutive. reflexivity.
+Qed.
+
+(* "0x" / "0X", hex digits and separators, followed by a separator of the literal syntax: one NUMBER token *)
+Lemma next_token_radhex : forall X ds rest, (X = 120 \/ X = 88)%N -> rad_ok RHex ds = true -> sep_rest rest ->
+  forall fuel (l : plex), At l ([48; X]%N ++ ds ++ rest) -> length ds + 2 < fuel ->
+  exists l', next_token pure_stream fuel l = Some (mk_item T_NUMBER ([48; X]%N ++ ds) (l_pos l) false, l') /\ At l' rest.
+Proof.
+  intros X ds rest HX Hok Hsep fuel l H Hf. cbn [app] in H.
+  destruct (At_ascii l _ _ H ltac:(lia)) as (E & C & Sr).
+  rewrite (next_token_digit fuel l 48%N E C ltac:(lia)) by lia.
+  destruct (number_rest_entry X (ds ++ rest) ltac:(lia) fuel l H ltac:(lia)) as (l1 & Hr & Ha1 & _).
+  rewrite Hr. clear Hr.
+  destruct (At_ascii l1 _ _ Ha1 ltac:(lia)) as (E1 & C1 & Sr1).
+  pose proof (rc_ascii l1 _ _ Ha1 ltac:(lia)) as Ha2.
+  destruct (hex_tail_run ds rest (rad_run RHex ds Hok) Hsep fuel (rc l1) [X; 48]%N Ha2 ltac:(lia)) as (l2 & Hx & Ha3).
+  destruct (sep_rest_cases rest Hsep) as [Ha Hst].
+  pose proof (At_head l2 rest Ha3 Ha) as C2.
+  exists l2. split; [|exact Ha3].
+  destruct fuel as [|f]; [lia|].
+  destruct (number_rest_skip X ltac:(lia) f l1 C1) as (U & F & Xp).
+  unfold number_rest. unfold sb in *. rewrite U. cbn [LexerModel.bind]. rewrite F. cbn [LexerModel.bind].
+  rewrite Xp. cbn [LexerModel.bind fst snd]. rewrite C1.
+  change (bytes_eqb (sb_str [48%N]) [48%N]) with true.
+  assert (Qx : ((X =? 120) || (X =? 88))%N = true) by (destruct HX as [-> | ->]; reflexivity).
+  rewrite Qx. cbn [andb]. cbv iota.
+  assert (Wx : wr X [48%N] = [X; 48]%N) by (destruct HX as [-> | ->]; reflexivity).
+  rewrite Wx, Hx. cbn [LexerModel.bind fst snd]. rewrite C2.
+  assert (Ho : ((head_ch rest =? 111)%N || (head_ch rest =? 79)%N) = false)
+    by (destruct Hst as [->|[->|[->| ->]]]; reflexivity).
+  rewrite Ho, andb_false_r. cbn [LexerModel.bind num_item]. rewrite sb_str_rev. reflexivity.
+Qed.
+
+(* "0b" / "0B": the first character after the letter must be a bit (peekChar), then bits and separators *)
+Lemma next_token_radbin : forall X ds rest, (X = 98 \/ X = 66)%N -> rad_ok RBin ds = true ->
+  (exists b0 ds', ds = b0 :: ds' /\ (b0 = 48 \/ b0 = 49)%N) -> sep_rest rest ->
+  forall fuel (l : plex), At l ([48; X]%N ++ ds ++ rest) -> length ds + 2 < fuel ->
+  exists l', next_token pure_stream fuel l = Some (mk_item T_NUMBER ([48; X]%N ++ ds) (l_pos l) false, l') /\ At l' rest.
+Proof.
+  intros X ds rest HX Hok (b0 & ds' & Eds & Hb0) Hsep fuel l H Hf. cbn [app] in H.
+  destruct (At_ascii l _ _ H ltac:(lia)) as (E & C & Sr).
+  rewrite (next_token_digit fuel l 48%N E C ltac:(lia)) by lia.
+  destruct (number_rest_entry X (ds ++ rest) ltac:(lia) fuel l H ltac:(lia)) as (l1 & Hr & Ha1 & _).
+  rewrite Hr. clear Hr.
+  destruct (At_ascii l1 _ _ Ha1 ltac:(lia)) as (E1 & C1 & Sr1).
+  pose proof (rc_ascii l1 _ _ Ha1 ltac:(lia)) as Ha2.
+  destruct (sep_rest_cases rest Hsep) as [Ha Hst].
+  assert (Hstop : is_bin_char (head_ch rest) = false) by (destruct Hst as [->|[->|[->| ->]]]; reflexivity).
+  destruct (take_while_run is_bin_char ds (rad_run RBin ds Hok) rest Ha Hstop fuel (rc l1) [X; 48]%N Ha2 ltac:(lia))
+    as (l2 & Hx & Ha3).
+  pose proof (At_head l2 rest Ha3 Ha) as C2.
+  assert (Sr1' : l_src l1 = b0 :: ds' ++ rest) by (rewrite Sr1, Eds; reflexivity).
+  pose proof (peek_ascii l1 b0 (ds' ++ rest) E1 Sr1' ltac:(lia)) as Hpk.
+  pose proof (peek_char_st l1) as Hps.
+  exists l2. split; [|exact Ha3].
+  destruct fuel as [|f]; [lia|].
+  destruct (number_rest_skip X ltac:(lia) f l1 C1) as (U & F & Xp).
+  unfold number_rest. unfold sb in *. rewrite U. cbn [LexerModel.bind]. rewrite F. cbn [LexerModel.bind].
+  rewrite Xp. cbn [LexerModel.bind fst snd]. rewrite C1.
+  change (bytes_eqb (sb_str [48%N]) [48%N]) with true.
+  assert (Qx : ((X =? 120) || (X =? 88))%N = false) by (destruct HX as [-> | ->]; reflexivity).
+  assert (Qb : ((X =? 98) || (X =? 66))%N = true) by (destruct HX as [-> | ->]; reflexivity).
+  rewrite Qx, Qb. cbn [andb]. cbv iota.
+  rewrite Hpk, Hps.
+  assert (Hb01 : ((b0 =? 48)%N || (b0 =? 49)%N) = true) by (destruct Hb0 as [-> | ->]; reflexivity).
+  rewrite Hb01. rewrite C1.
+  assert (Wx : wr X [48%N] = [X; 48]%N) by (destruct HX as [-> | ->]; reflexivity).
+  rewrite Wx, Hx. cbn [LexerModel.bind fst snd]. rewrite C2.
+  assert (Ho : ((head_ch rest =? 111)%N || (head_ch rest =? 79)%N) = false)
+    by (destruct Hst as [->|[->|[->| ->]]]; reflexivity).
+  rewrite Ho, andb_false_r. cbn [LexerModel.bind num_item]. rewrite sb_str_rev. reflexivity.
+Qed.
+
+(* "0o" / "0O", octal digits and separators *)
+Lemma next_token_radoct : forall X ds rest, (X = 111 \/ X = 79)%N -> rad_ok ROct ds = true -> sep_rest rest ->
+  forall fuel (l : plex), At l ([48; X]%N ++ ds ++ rest) -> length ds + 2 < fuel ->
+  exists l', next_token pure_stream fuel l = Some (mk_item T_NUMBER ([48; X]%N ++ ds) (l_pos l) false, l') /\ At l' rest.
+Proof.
+  intros X ds rest HX Hok Hsep fuel l H Hf. cbn [app] in H.
+  destruct (At_ascii l _ _ H ltac:(lia)) as (E & C & Sr).
+  rewrite (next_token_digit fuel l 48%N E C ltac:(lia)) by lia.
+  destruct (number_rest_entry X (ds ++ rest) ltac:(lia) fuel l H ltac:(lia)) as (l1 & Hr & Ha1 & _).
+  rewrite Hr. clear Hr.
+  destruct (At_ascii l1 _ _ Ha1 ltac:(lia)) as (E1 & C1 & Sr1).
+  pose proof (rc_ascii l1 _ _ Ha1 ltac:(lia)) as Ha2.
+  destruct (sep_rest_cases rest Hsep) as [Ha Hst].
+  assert (Hstop : is_oct_char (head_ch rest) = false) by (destruct Hst as [->|[->|[->| ->]]]; reflexivity).
+  destruct (take_while_run is_oct_char ds (rad_run ROct ds Hok) rest Ha Hstop fuel (rc l1) [X; 48]%N Ha2 ltac:(lia))
+    as (l2 & Hx & Ha3).
+  exists l2. split; [|exact Ha3].
+  destruct fuel as [|f]; [lia|].
+  destruct (number_rest_skip X ltac:(lia) f l1 C1) as (U & F & Xp).
+  unfold number_rest. unfold sb in *. rewrite U. cbn [LexerModel.bind]. rewrite F. cbn [LexerModel.bind].
+  rewrite Xp. cbn [LexerModel.bind fst snd]. rewrite C1.
+  change (bytes_eqb (sb_str [48%N]) [48%N]) with true.
+  assert (Qx : ((X =? 120) || (X =? 88))%N = false) by (destruct HX as [-> | ->]; reflexivity).
+  assert (Qb : ((X =? 98) || (X =? 66))%N = false) by (destruct HX as [-> | ->]; reflexivity).
+  assert (Qo : ((X =? 111) || (X =? 79))%N = true) by (destruct HX as [-> | ->]; reflexivity).
+  rewrite Qx, Qb. cbn [andb]. cbv iota. cbn [LexerModel.bind fst snd]. rewrite C1, Qo.
+  cbn [length Nat.eqb N.eqb Pos.eqb andb]. cbv iota.
+  assert (Wx : wr X [48%N] = [X; 48]%N) by (destruct HX as [-> | ->]; reflexivity).
+  rewrite Wx, Hx. cbn [LexerModel.bind num_item]. rewrite sb_str_rev. reflexivity.
+Qed.
+
 Lemma next_token_hex : forall hs rest, hs <> [] -> forallb is_lhex hs = true -> sep_rest rest ->
   forall fuel (l : plex), At l ([48; 120]%N ++ hs ++ rest) -> length hs + 2 < fuel ->
   exists l', next_token pure_stream fuel l = Some (mk_item T_NUMBER ([48; 120]%N ++ hs) (l_pos l) false, l') /\ At l' rest.
@@ -279,85 +444,23 @@ Proof.
   intros hs rest Hne Hh Hsep fuel l H Hf. cbn [app] in H.
   destruct (At_ascii l _ _ H ltac:(lia)) as (E & C & Sr).
   rewrite (next_token_digit fuel l 48%N E C ltac:(lia)) by lia.
-  (* the leading digits: just "0" *)
-  destruct (take_while_run is_digit [48%N] ltac:(constructor; [split; [lia|reflexivity]|constructor])
-              (120%N :: hs ++ rest) ltac:(cbn; lia) eq_refl fuel l [] H ltac:(cbn; lia)) as (l1 & Ht & Ha1).
+  destruct (number_rest_entry 120%N (hs ++ rest) ltac:(lia) fuel l H ltac:(lia)) as (l1 & Hr & Ha1 & _).
+  rewrite Hr. clear Hr.
   destruct (At_ascii l1 _ _ Ha1 ltac:(lia)) as (E1 & C1 & Sr1).
   pose proof (rc_ascii l1 _ _ Ha1 ltac:(lia)) as Ha2.
-  destruct (hex_tail_run hs rest Hh Hsep fuel (rc l1) [120; 48]%N Ha2 ltac:(lia)) as (l2 & Hx & Ha3).
+  destruct (hex_tail_run hs rest (lhex_run hs Hh) Hsep fuel (rc l1) [120; 48]%N Ha2 ltac:(lia)) as (l2 & Hx & Ha3).
   destruct (sep_rest_cases rest Hsep) as [Ha Hst].
   pose proof (At_head l2 rest Ha3 Ha) as C2.
   exists l2. split; [|exact Ha3].
-  unfold read_number_or_ident. unfold sb in *. rewrite Ht. cbn [LexerModel.bind fst snd rev app].
-  rewrite C1. cbn [N.eqb Pos.eqb andb orb]. cbv iota. rewrite C1.
-  change (is_letter 120) with true. cbn [N.eqb Pos.eqb andb orb negb]. cbv iota.
-  change (bytes_eqb (sb_str [48%N]) [48%N]) with true. cbn [andb negb]. cbv iota.
   destruct fuel as [|f]; [lia|].
-  unfold number_rest.
-  assert (U : us_digit_groups pure_stream (S f) (l1, [48%N]) = Some (l1, [48%N])).
-  { unfold us_digit_groups. apply loopo_once. rewrite C1. reflexivity. }
-  unfold sb in *. rewrite U. cbn [LexerModel.bind].
-  assert (F : fraction_part pure_stream (S f) (l1, [48%N]) = Some (l1, [48%N])).
-  { unfold fraction_part. rewrite C1. reflexivity. }
-  rewrite F. cbn [LexerModel.bind].
-  assert (X : exponent_part pure_stream (S f) (l1, [48%N]) = Some (l1, [48%N])).
-  { unfold exponent_part. rewrite C1. reflexivity. }
-  rewrite X. cbn [LexerModel.bind fst snd]. rewrite C1.
+  destruct (number_rest_skip 120%N ltac:(lia) f l1 C1) as (U & F & Xp).
+  unfold number_rest. unfold sb in *. rewrite U. cbn [LexerModel.bind]. rewrite F. cbn [LexerModel.bind].
+  rewrite Xp. cbn [LexerModel.bind fst snd]. rewrite C1.
   change (bytes_eqb (sb_str [48%N]) [48%N]) with true. cbn [N.eqb Pos.eqb andb orb]. cbv iota.
   change (wr 120 [48%N]) with [120; 48]%N. rewrite Hx. cbn [LexerModel.bind fst snd]. rewrite C2.
   assert (Ho : ((head_ch rest =? 111)%N || (head_ch rest =? 79)%N) = false)
     by (destruct Hst as [->|[->|[->| ->]]]; reflexivity).
-  rewrite Ho, andb_false_r. cbn [LexerModel.bind num_item].
-  unfold sb_str, frev. rewrite rev_append_rev, app_nil_r, rev_app_distr, rev_involutive. reflexivity.
-Qed.
-
-(* "0b" bits *)
-Lemma next_token_bin : forall bs rest, bs <> [] -> forallb is_bit bs = true -> sep_rest rest ->
-  forall fuel (l : plex), At l ([48; 98]%N ++ bs ++ rest) -> length bs + 2 < fuel ->
-  exists l', next_token pure_stream fuel l = Some (mk_item T_NUMBER ([48; 98]%N ++ bs) (l_pos l) false, l') /\ At l' rest.
-Proof.
-  intros bs rest Hne Hb Hsep fuel l H Hf. cbn [app] in H.
-  destruct (At_ascii l _ _ H ltac:(lia)) as (E & C & Sr).
-  rewrite (next_token_digit fuel l 48%N E C ltac:(lia)) by lia.
-  destruct (take_while_run is_digit [48%N] ltac:(constructor; [split; [lia|reflexivity]|constructor])
-              (98%N :: bs ++ rest) ltac:(cbn; lia) eq_refl fuel l [] H ltac:(cbn; lia)) as (l1 & Ht & Ha1).
-  destruct (At_ascii l1 _ _ Ha1 ltac:(lia)) as (E1 & C1 & Sr1).
-  pose proof (rc_ascii l1 _ _ Ha1 ltac:(lia)) as Ha2.
-  destruct (sep_rest_cases rest Hsep) as [Ha Hst].
-  assert (Hstop : is_bin_char (head_ch rest) = false) by (destruct Hst as [->|[->|[->| ->]]]; reflexivity).
-  destruct (take_while_run is_bin_char bs (bits_run bs Hb) rest Ha Hstop fuel (rc l1) [98; 48]%N Ha2 ltac:(lia))
-    as (l2 & Hx & Ha3).
-  pose proof (At_head l2 rest Ha3 Ha) as C2.
-  (* the first bit, seen by peekChar *)
-  destruct bs as [|b0 bs']; [contradiction|].
-  assert (Hb0 : (b0 = 48 \/ b0 = 49)%N).
-  { cbn [forallb] in Hb. apply andb_prop in Hb. destruct Hb as [Hb _]. unfold is_bit in Hb. lia. }
-  pose proof (peek_ascii l1 b0 (bs' ++ rest) E1 Sr1 ltac:(lia)) as Hpk.
-  pose proof (peek_char_st l1) as Hps.
-  exists l2. split; [|exact Ha3].
-  unfold read_number_or_ident. unfold sb in *. rewrite Ht. cbn [LexerModel.bind fst snd rev app].
-  rewrite C1. cbn [N.eqb Pos.eqb andb orb]. cbv iota. rewrite C1.
-  change (is_letter 98) with true. cbn [N.eqb Pos.eqb andb orb negb]. cbv iota.
-  change (bytes_eqb (sb_str [48%N]) [48%N]) with true. cbn [andb negb]. cbv iota.
-  destruct fuel as [|f]; [lia|].
-  unfold number_rest.
-  assert (U : us_digit_groups pure_stream (S f) (l1, [48%N]) = Some (l1, [48%N])).
-  { unfold us_digit_groups. apply loopo_once. rewrite C1. reflexivity. }
-  unfold sb in *. rewrite U. cbn [LexerModel.bind].
-  assert (F : fraction_part pure_stream (S f) (l1, [48%N]) = Some (l1, [48%N])).
-  { unfold fraction_part. rewrite C1. reflexivity. }
-  rewrite F. cbn [LexerModel.bind].
-  assert (X : exponent_part pure_stream (S f) (l1, [48%N]) = Some (l1, [48%N])).
-  { unfold exponent_part. rewrite C1. reflexivity. }
-  rewrite X. cbn [LexerModel.bind fst snd]. rewrite C1.
-  change (bytes_eqb (sb_str [48%N]) [48%N]) with true. cbn [N.eqb Pos.eqb andb orb]. cbv iota.
-  rewrite Hpk, Hps.
-  assert (Hb01 : ((b0 =? 48)%N || (b0 =? 49)%N) = true) by (destruct Hb0 as [-> | ->]; reflexivity).
-  rewrite Hb01. rewrite C1. change (wr 98 [48%N]) with [98; 48]%N. rewrite Hx. cbn [LexerModel.bind fst snd]. rewrite C2.
-  assert (Ho : ((head_ch rest =? 111)%N || (head_ch rest =? 79)%N) = false)
-    by (destruct Hst as [->|[->|[->| ->]]]; reflexivity).
-  rewrite Ho, andb_false_r. cbn [LexerModel.bind num_item].
-  unfold sb_str, frev. rewrite rev_append_rev, app_nil_r, rev_app_distr, rev_involutive. reflexivity.
+  rewrite Ho, andb_false_r. cbn [LexerModel.bind num_item]. rewrite sb_str_rev. reflexivity.
 Qed.
 
 (* ------------------------------------------------------------------------------------------ *)
@@ -428,11 +531,26 @@ Proof.
   exists l'. split; [|exact Ha]. eapply lex_many_one; [exact Hn|discriminate].
 Qed.
 
+Lemma lexes_rad : forall r up ds, rad_ok r ds = true ->
+  (r = RBin -> exists b0 ds', ds = b0 :: ds' /\ (b0 = 48 \/ b0 = 49)%N) ->
+  lexes ([48; radix_letter r up]%N ++ ds) [(T_NUMBER, [48; radix_letter r up]%N ++ ds)].
+Proof.
+  intros r up ds Hok Hbin rest Hsep fuel l H Hf. rewrite <- app_assoc in H. rewrite !app_length in Hf. cbn [length] in Hf.
+  assert (G : exists l', next_token pure_stream fuel l =
+                Some (mk_item T_NUMBER ([48; radix_letter r up]%N ++ ds) (l_pos l) false, l') /\ At l' rest).
+  { destruct r.
+    - apply next_token_radhex; try assumption; [destruct up; cbn; lia|lia].
+    - apply next_token_radbin; try assumption; [destruct up; cbn; lia|apply Hbin; reflexivity|lia].
+    - apply next_token_radoct; try assumption; [destruct up; cbn; lia|lia]. }
+  destruct G as (l' & Hn & Ha). exists l'. split; [|exact Ha]. eapply lex_many_one; [exact Hn|discriminate].
+Qed.
+
 Lemma lexes_bin : forall n, lexes ([48; 98]%N ++ bin n) [(T_NUMBER, [48; 98]%N ++ bin n)].
 Proof.
-  intros n rest Hsep fuel l H Hf. rewrite <- app_assoc in H. rewrite !app_length in Hf. cbn [length] in Hf.
-  destruct (next_token_bin (bin n) rest (bin_nonempty n) (bin_bits n) Hsep fuel l H ltac:(lia)) as (l' & Hn & Ha).
-  exists l'. split; [|exact Ha]. eapply lex_many_one; [exact Hn|discriminate].
+  intros n. apply (lexes_rad RBin false (bin n)); [apply bin_rad|]. intros _.
+  pose proof (bin_nonempty n) as Hne. pose proof (bin_bits n) as Hb.
+  destruct (bin n) as [|b0 ds']; [contradiction|]. exists b0, ds'. split; [reflexivity|].
+  cbn [forallb] in Hb. apply andb_prop in Hb. destruct Hb as [Hb _]. unfold is_bit in Hb. lia.
 Qed.
 
 Lemma bytes_okb_ok : forall v, bytes_okb v = true -> bytes_ok v.
@@ -466,6 +584,8 @@ Qed.
 Fixpoint lexable (t : cval) : bool :=
   match t with
   | CFlt _ _ => false
+  | CRad r _ ds =>                              (* after 0b readNumberOrIdent peeks for a bit: "0b_1" is 0 and an alias *)
+      rad_ok r ds && match r, ds with RBin, c :: _ => is_bit c | _, _ => true end
   | CStr v => bytes_okb v
   | CArr l => forallb lexable l
   | CTup l => forallb lexable l
@@ -475,7 +595,7 @@ Fixpoint lexable (t : cval) : bool :=
 (* the first byte of a source text is not white space *)
 Lemma src_head : forall t, lexable t = true -> exists c s, src t = c :: s /\ (c < 128)%N /\ is_ws c = false.
 Proof.
-  intros t Hl. destruct t as [n|n|n|n|neg text|v|l|l]; cbn [src app]; try discriminate;
+  intros t Hl. destruct t as [n|n|n|n|r up ds|neg text|v|l|l]; cbn [src app]; try discriminate;
     try (eexists; eexists; split; [reflexivity|split; [lia|reflexivity]]).
   destruct (dec_dec_digits n) as [Hne Hds]. destruct (dec n) as [|d ds]; [contradiction|].
   assert (Hd : (48 <= d <= 57)%N) by (inversion Hds; assumption).
@@ -556,11 +676,15 @@ Qed.
 
 Theorem lex_tree : forall t, lexes_tree t.
 Proof.
-  induction t as [n|n|n|n|neg text|v|l IH|l IH] using cval_ind2; intros Hs Hl.
+  induction t as [n|n|n|n|r up ds|neg text|v|l IH|l IH] using cval_ind2; intros Hs Hl.
   - apply lexes_dec.
   - apply lexes_neg.
   - apply lexes_hex.
   - apply lexes_bin.
+  - cbn [lexable] in Hl. apply andb_prop in Hl. destruct Hl as [Hok Hb].
+    cbn [src toks]. apply lexes_rad; [exact Hok|].
+    intros ->. destruct ds as [|b0 ds']; [discriminate|]. exists b0, ds'. split; [reflexivity|].
+    unfold is_bit in Hb. lia.
   - discriminate.
   - cbn [lexable] in Hl. apply lexes_str. exact Hl.
   - cbn [shaped] in Hs. apply andb_prop in Hs. destruct Hs as [Hlen Hsl]. cbn [lexable] in Hl.
@@ -604,9 +728,10 @@ Qed.
 
 Lemma toks_le_src : forall t, lexable t = true -> length (toks t) <= length (src t).
 Proof.
-  induction t as [n|n|n|n|neg text|v|l IH|l IH] using cval_ind2; intros Hl; cbn [toks src]; try discriminate.
+  induction t as [n|n|n|n|r up ds|neg text|v|l IH|l IH] using cval_ind2; intros Hl; cbn [toks src]; try discriminate.
   - pose proof (dec_nonempty n). destruct (dec n); [contradiction|cbn; lia].
   - pose proof (dec_nonempty n). destruct (dec n); [contradiction|cbn; lia].
+  - cbn. lia.
   - cbn. lia.
   - cbn. lia.
   - unfold quote. cbn. lia.
